@@ -83,6 +83,8 @@ class ExpungeResponse(UntaggedResponse):
 
     """
 
+    renumbers = True
+
     def __init__(self, seq: int) -> None:
         super().__init__()
         self.seq = seq
